@@ -22,6 +22,8 @@ func init() {
 			"stack depth on deeply nested queries; memory",
 		},
 		Rules: func(r *Run) {
+			ruleCallDerivedBounds(r, []string{enginePkg, metricPkg, dockerlogPkg, "internal/iterators", "internal/logql/logqlengine/jsonexpr", "internal/logql/logqlengine/logqlpattern", logqlPkg, lexerPkg, "internal/lexerql", "internal/otelstorage", cmdPkg})
+			ruleScannerLoopsStopAtEOF(r, []string{"internal/lexerql", lexerPkg, "internal/logql/logqlengine/jsonexpr", "internal/logql/logqlengine/logqlpattern"}, 4)
 			ruleLoopProgress(r, []string{enginePkg, metricPkg, dockerlogPkg, "internal/iterators", "internal/logql/logqlengine/jsonexpr", "internal/logql/logqlengine/logqlpattern", logqlPkg, lexerPkg, "internal/lexerql", "internal/otelstorage", cmdPkg}, 60)
 			rulePanicInventory(r)
 			ruleTypeSwitchExhaustive(r, enginePkg, "", "buildStage", logqlPkg, "PipelineStage", 13, false)
